@@ -32,6 +32,7 @@ type Engine struct {
 	bytesGlobal map[*ssa.Global]string // never-reassigned []byte global initialised from a constant string
 	storedGlob  map[*ssa.Global]int
 	loadErrs    []string
+	aliases     map[string]map[string]string // package path -> import alias -> import path
 }
 
 func loadEngine(repo, buildDir string, patterns []string) (*Engine, error) {
@@ -58,6 +59,18 @@ func loadEngine(repo, buildDir string, patterns []string) (*Engine, error) {
 	}
 	if len(e.loadErrs) > 0 {
 		return e, fmt.Errorf("package load errors: %s", strings.Join(e.loadErrs, "; "))
+	}
+	e.aliases = map[string]map[string]string{}
+	for _, p := range pkgs {
+		m := map[string]string{}
+		for _, f := range p.Syntax {
+			for _, imp := range f.Imports {
+				if imp.Name != nil && imp.Name.Name != "_" && imp.Name.Name != "." {
+					m[imp.Name.Name] = strings.Trim(imp.Path.Value, "\"")
+				}
+			}
+		}
+		e.aliases[p.PkgPath] = m
 	}
 	prog, spkgs := ssautil.AllPackages(pkgs, ssa.GlobalDebug|ssa.BareInits)
 	e.prog = prog
